@@ -1119,7 +1119,8 @@ impl Op {
 
                 let (is_zero, is_x) = match (x.as_ref(), y.as_ref()) {
                     (Value::U64(x), Value::U64(y)) => {
-                        let is_zero = (x.payload & !x.mask_xz) != (y.payload & !y.mask_xz);
+                        // Definitely unequal only where both bits are known and differ.
+                        let is_zero = (x.payload ^ y.payload) & !x.mask_xz & !y.mask_xz != 0;
                         let is_x = x.mask_xz != 0 || y.mask_xz != 0;
 
                         (is_zero, is_x)
@@ -1128,8 +1129,10 @@ impl Op {
                         let x_mask = mask_cache.get(x.width as usize).clone();
                         let y_mask = mask_cache.get(y.width as usize);
 
-                        let is_zero = (x.payload() & (x.mask_xz() ^ x_mask))
-                            != (y.payload() & (y.mask_xz() ^ y_mask));
+                        let is_zero = ((x.payload() ^ y.payload())
+                            & (x.mask_xz() ^ x_mask)
+                            & (y.mask_xz() ^ y_mask))
+                            != b0();
                         let is_x = x.mask_xz() != &b0() || y.mask_xz() != &b0();
 
                         (is_zero, is_x)
@@ -1149,7 +1152,8 @@ impl Op {
 
                 let (is_one, is_x) = match (x.as_ref(), y.as_ref()) {
                     (Value::U64(x), Value::U64(y)) => {
-                        let is_one = (x.payload & !x.mask_xz) != (y.payload & !y.mask_xz);
+                        // Definitely unequal only where both bits are known and differ.
+                        let is_one = (x.payload ^ y.payload) & !x.mask_xz & !y.mask_xz != 0;
                         let is_x = x.mask_xz != 0 || y.mask_xz != 0;
 
                         (is_one, is_x)
@@ -1158,8 +1162,10 @@ impl Op {
                         let x_mask = mask_cache.get(x.width as usize).clone();
                         let y_mask = mask_cache.get(y.width as usize);
 
-                        let is_one = (x.payload() & (x.mask_xz() ^ x_mask))
-                            != (y.payload() & (y.mask_xz() ^ y_mask));
+                        let is_one = ((x.payload() ^ y.payload())
+                            & (x.mask_xz() ^ x_mask)
+                            & (y.mask_xz() ^ y_mask))
+                            != b0();
                         let is_x = x.mask_xz() != &b0() || y.mask_xz() != &b0();
 
                         (is_one, is_x)
